@@ -301,7 +301,8 @@ def _libenc_obj(k: int):
                         auth_len=len(trailer.auth_value) if trailer else 0, call_id=(1, 2, 0xFFFFFFFF, 0x01020304)[k % 4])
     if ptype in (rpc.PacketType.BIND_ACK, rpc.PacketType.ALTER_CONTEXT_RESP):
         cls = rpc.BindAck if ptype == rpc.PacketType.BIND_ACK else rpc.AlterContextResponse
-        res = [rpc.ContextResult(rpc.ContextResultCode(j % 4), j, uuid.UUID(int=j * 977), j) for j in range(k % 5)]
+        # (transfer syntax versions are 32-bit values: also minor-version halves, all ones)
+        res = [rpc.ContextResult(rpc.ContextResultCode(j % 4), j, uuid.UUID(int=j * 977), (j, 0x10000, 0x00020001, 0xFFFFFFFF, 0xFFFF, 0x80000000)[(j + k // 5) % 6]) for j in range(k % 5)]
         obj = cls(header=hdr, sec_trailer=trailer, max_xmit_frag=4280 + k, max_recv_frag=4280, assoc_group=k * 31, sec_addr=("9" * (k % 6)) if k % 7 != 3 else ("\\PIPE\\ls\u00e4ss", "\u20ac1", "n\u00e4\u00e4", "\U0001F600")[(k // 7) % 4], results=res)
     elif ptype == rpc.PacketType.RESPONSE:
         stub = bytes(rng.randrange(256) for _ in range((k * 4) % 64))
@@ -418,6 +419,35 @@ def run_cat(case) -> dict:
     except Exception as e:  # noqa: BLE001
         viol = common.violation("C12", "codec", "sequential", "well-formed-pdu-not-decoded", kind, "", f"catalogue PDU {k} ({kind}): {e!r}")
     return {"viol": viol, "digest": kind, "key": common.key_hash(case), "fired": {}, "probes": {"catalogue_round_trips": 1}, "vtime_ns": 0}
+
+
+def run_eptreq(case) -> dict:
+    """["eptreq", k]: a well-formed ept_map REQUEST (0..5 floors of the standard tcpip tower, object UUID present or not, lookup
+    handle present or not, max_towers 0..500) is encoded by the library, decoded by the library and encoded again."""
+    import dpapi_ng._epm as epm
+    import dpapi_ng._rpc as rpc
+    from dpapi_ng._gkdi import ISD_KEY
+
+    _, k = case
+    r = random.Random(k)
+    full = epm.build_tcpip_tower(ISD_KEY, (rpc.NDR, rpc.NDR64)[k % 2], r.choice((135, 49667, 0, 65535)), r.choice((0, 0x7F000001, 0xFFFFFFFF)))
+    n = (k // 2) % 6
+    obj = None if k % 3 == 0 else uuid.UUID(int=r.getrandbits(128) | 1)
+    eh = None if (k // 3) % 2 == 0 else (r.choice((0, 1, 0xFFFFFFFF)), uuid.UUID(int=r.getrandbits(128) | 1))
+    m = epm.EptMap(obj=obj, tower=list(full[:n]), entry_handle=eh, max_towers=r.choice((0, 1, 4, 500)))
+    viol = None
+    label = f"ept_map request with {n} floors, obj={'set' if obj else 'null'}, entry_handle={'set' if eh else 'null'}, max_towers={m.max_towers}"
+    try:
+        raw = bytes(m.pack())
+        back = epm.EptMap.unpack(raw)
+        again = bytes(back.pack())
+        if again != raw:
+            viol = common.violation("C12", "epm-codec", "sequential", "re-encode-differs", "ept-map-request", "", f"{label}: decode + encode gives other bytes ({len(again)} vs {len(raw)})")
+        elif repr(back) != repr(m):
+            viol = common.violation("C12", "epm-codec", "sequential", "fields-change", "ept-map-request", "", f"{label}: decoded {repr(back)[:300]}")
+    except Exception as e:  # noqa: BLE001
+        viol = common.violation("C12", "epm-codec", "sequential", "well-formed-message-not-decoded", "ept-map-request", type(e).__name__, f"{label}: {e!r}")
+    return {"viol": viol, "digest": label, "key": common.key_hash(case), "fired": {}, "probes": {"ept_map_request_round_trips": 1, "ept_map_request_%d_floors" % n: 1}, "vtime_ns": 0}
 
 
 def run_scale(case) -> dict:
@@ -611,14 +641,14 @@ class C12(common.Check):
             "flags, minor version, call ids) sent to the client. (tear) one message of a full "
             "EPM+GKDI conversation is garbled in flight (towards LibDC or towards the client: truncation with consistent frag_len, bit flips, "
             "NDR count rewrites up to 2^64-1, growth) under a traced-line budget; (threads) 2..4 caller threads of one process run codec "
-            "computations at the same time, pre-empted at PRNG-chosen line events inside dpapi_ng, and every result must equal the one computed alone; (scale) structured hostile ept_map results (many towers with tiny declared lengths and "
+            "computations at the same time, pre-empted at PRNG-chosen line events inside dpapi_ng, and every result must equal the one computed alone; (eptreq) ept_map requests with 0..5 floors, null / non-null object UUID and lookup handle encoded, decoded and re-encoded by the library; (scale) structured hostile ept_map results (many towers with tiny declared lengths and "
             "floor counts reaching to the end of the stub) of growing size under a budget of 20000 + 30*len traced lines. Non-trivial = every case; distinct = distinct tuple.")
     components = {"client": "real (all client-direction codecs, RpcClient)", "LibDC": "real codecs in the server role (Bind/AlterContext/Request/"
                   "VerificationTrailer/EptMap/GetKey decode, BindAck/AlterContextResponse/Response/Fault/BindNak/EptMapResult/GroupKeyEnvelope encode)",
                   "reference server / monitor": "model (ref.rpce)", "security context": "stub", "transport": "simulated, with in-flight adversary"}
     assumptions = ["decode(encode(x)) = x is claimed only for messages that cross the wire between the three parties (values no party sends are outside the technique)",
                    "NDR referent ids are free: NDR64 stubs are compared through the independent decoder"]
-    required_fired = ("codec_lib", "codec_ref", "reqtear", "replytear", "tear_vt", "libenc", "libenc_drep_be", "thread_cases", "thread_overlap", "scale_cases", "catalogue_round_trips") + tuple("tower_len_mod8_%d" % i for i in range(8)) + tuple("vt_kind_%d" % i for i in range(9))
+    required_fired = ("codec_lib", "codec_ref", "reqtear", "replytear", "tear_vt", "libenc", "libenc_drep_be", "thread_cases", "thread_overlap", "scale_cases", "catalogue_round_trips", "ept_map_request_round_trips", "ept_map_request_0_floors", "ept_map_request_5_floors") + tuple("tower_len_mod8_%d" % i for i in range(8)) + tuple("vt_kind_%d" % i for i in range(9))
 
     def cases(self, tier, seed):
         out = []
@@ -650,6 +680,8 @@ class C12(common.Check):
             out.append(["threads", rng.getrandbits(30), 2 + k % 3, pol])
         for k in range(0, 11 * (40 if tier == "quick" else 200)):
             out.append(["cat", k])
+        for k in range(0, 144 if tier == "quick" else 3000):
+            out.append(["eptreq", k])
         from checks import epmstub
 
         for shape in epmstub.SHAPES:
@@ -662,7 +694,7 @@ class C12(common.Check):
 
     def run_case(self, case):
         try:
-            return {"conv": run_conv, "epm": run_epm, "types": run_types, "tear": run_tear, "libenc": run_libenc, "threads": run_threads, "scale": run_scale, "cat": run_cat}[case[0]](case)
+            return {"conv": run_conv, "epm": run_epm, "types": run_types, "tear": run_tear, "libenc": run_libenc, "threads": run_threads, "scale": run_scale, "cat": run_cat, "eptreq": run_eptreq}[case[0]](case)
         except wiremon.MonitorHarnessError as e:
             raise common.HarnessError(str(e))
 
@@ -672,7 +704,7 @@ class C12(common.Check):
             k = (c[0], c[1], c[2]) if c[0] in ("tear", "conv", "epm") else (c[0],)
             if c[0] == "tear":
                 k = k + (c[3],)
-            if k not in seen and c[0] not in ("threads", "scale", "cat"):
+            if k not in seen and c[0] not in ("threads", "scale", "cat", "eptreq"):
                 seen.add(k)
                 try:
                     self.run_case(c)
@@ -699,7 +731,7 @@ class C12(common.Check):
         names = {"conv": ("kind", "codec", "flavour", "n_contexts", "n_transfer_syntaxes", "sec_addr_len", "token_size", "stub_len", "vt_variant", "reply_len"),
                  "epm": ("kind", "codec", "flavour", "tower_variant", "status"), "types": ("kind", "flavour", "pdu_variant"),
                  "tear": ("kind", "direction", "flavour", "conversation", "seed"), "libenc": ("kind", "flavour", "variant"),
-                 "threads": ("kind", "seed", "n_threads", "policy"), "scale": ("kind", "shape", "k"), "cat": ("kind", "catalogue_index")}[case[0]]
+                 "threads": ("kind", "seed", "n_threads", "policy"), "scale": ("kind", "shape", "k"), "cat": ("kind", "catalogue_index"), "eptreq": ("kind", "k")}[case[0]]
         return dict(zip(names, case))
 
 
